@@ -149,7 +149,7 @@ def names_shard(seed: int, examples: int, known: list[str]) -> dict:
     return part.dump()
 
 
-OPS = ["submit", "finish", "fail", "heartbeat", "wait", "event", "clientdata", "purge_broker", "purge_orchestrator", "purge_state_backend",
+OPS = ["submit", "finish", "fail", "heartbeat", "wait", "event", "clientdata", "clientdata_same", "purge_broker", "purge_orchestrator", "purge_state_backend",
        "purge_trigger", "purge_client_data_store", "purge_app"]
 
 
@@ -176,8 +176,15 @@ def apply_op(app: Any, task: Any, op: str, n: int) -> None:
         app.orchestrator.waiting_for_results(a.invocation_id, [b.invocation_id])
     elif op == "event":
         app.trigger.emit_event("evt", {"n": n})
-    elif op == "clientdata":
-        app.client_data_store.serialize({"blob": "z" * 1200, "n": n})
+    elif op in ("clientdata", "clientdata_same"):
+        # "same": every application externalises identical content (same content-hash key in different stores)
+        obj = {"blob": "z" * 1200, "n": n} if op == "clientdata" else {"blob": "s" * 1200}
+        ref = app.client_data_store.serialize(obj)
+        # the application's own data must be there for a reader without this process's cache, whatever the other applications stored
+        app.client_data_store._deserialized_cache.clear()
+        back = app.client_data_store.deserialize(ref)
+        if back != obj:
+            raise AssertionError(f"client data of app {app.app_id!r} does not resolve to what was stored")
     elif op.startswith("purge_"):
         what = op[len("purge_"):]
         if what == "app":
@@ -220,7 +227,7 @@ def ops_shard(kind: str, seed: int, examples: int, known: list[str]) -> dict:
             # give every app some state first
             for k, (app, t) in enumerate(group):
                 try:
-                    for op in ("submit", "finish", "clientdata", "event", "wait", "heartbeat"):
+                    for op in ("submit", "finish", "clientdata", "clientdata_same", "event", "wait", "heartbeat"):
                         apply_op(app, t, op, 100 + k)
                 except Exception as exc:  # noqa: BLE001
                     rep.fail(f"{kind}:op-raised:{type(exc).__name__}", f"app id {app.app_id!r}: {type(exc).__name__}: {exc}")
